@@ -714,13 +714,16 @@ def decorate_with_checker(func: CallableT) -> CallableT:
                 in_progress = set()
                 _IN_PROGRESS.set(in_progress)
 
+            # If the wrapper is already checking the contracts for the wrapped function, avoid a recursive loop
+            # by skipping any subsequent contract checks for the same function.
+            #
+            # This shortcut must stay outside of the try-finally block below: the marker belongs to the outer call
+            # which is still checking its contracts, and must not be discarded by the re-entrant call.
+            if id_func in in_progress:
+                return await func(*args, **kwargs)
+
             # Use try-finally instead of ExitStack for performance.
             try:
-                # If the wrapper is already checking the contracts for the wrapped function, avoid a recursive loop
-                # by skipping any subsequent contract checks for the same function.
-                if id_func in in_progress:
-                    return await func(*args, **kwargs)
-
                 in_progress.add(id_func)
 
                 (preconditions, snapshots, postconditions) = _unpack_pre_snap_posts(
@@ -787,13 +790,16 @@ def decorate_with_checker(func: CallableT) -> CallableT:
                 in_progress = set()
                 _IN_PROGRESS.set(in_progress)
 
+            # If the wrapper is already checking the contracts for the wrapped function, avoid a recursive loop
+            # by skipping any subsequent contract checks for the same function.
+            #
+            # This shortcut must stay outside of the try-finally block below: the marker belongs to the outer call
+            # which is still checking its contracts, and must not be discarded by the re-entrant call.
+            if id_func in in_progress:
+                return func(*args, **kwargs)
+
             # Use try-finally instead of ExitStack for performance.
             try:
-                # If the wrapper is already checking the contracts for the wrapped function, avoid a recursive loop
-                # by skipping any subsequent contract checks for the same function.
-                if id_func in in_progress:
-                    return func(*args, **kwargs)
-
                 in_progress.add(id_func)
 
                 (preconditions, snapshots, postconditions) = _unpack_pre_snap_posts(
